@@ -19,9 +19,31 @@ TRUSTED_BASE = [
 _POOL = None
 
 
+class _CallTimeout(Exception):
+    pass
+
+
+def _alarm(signum, frame):
+    raise _CallTimeout()
+
+
+CALL_TIMEOUT_S = int(os.environ.get("VERIF_CALL_TIMEOUT", "300"))
+
+
 def _impl_one(t):
+    """one implementation call, with a wall-clock limit (a call that does not return is reported as error:Timeout,
+    which no model answer equals)"""
+    import signal
     case, fmt, ot, names = t
-    return ALGS[case["alg"]].call_impl(case, fmt, ot, names)
+    old = signal.signal(signal.SIGALRM, _alarm)
+    signal.alarm(CALL_TIMEOUT_S)
+    try:
+        return ALGS[case["alg"]].call_impl(case, fmt, ot, names)
+    except _CallTimeout:
+        return {"error": "Timeout"}
+    finally:
+        signal.alarm(0)
+        signal.signal(signal.SIGALRM, old)
 
 
 def impl_map(tasks, serial_below=200):
@@ -101,11 +123,14 @@ class Check:
         for k in self.kf:
             if k.get("status") != "known" or self.pid not in k["properties"]:
                 continue
-            if k["algorithm"] != alg or not kind.startswith(k["kind"]):
+            kinds = k["kind"] if isinstance(k["kind"], list) else [k["kind"]]
+            if k["algorithm"] != alg or not any(kind.startswith(kk_) for kk_ in kinds):
                 continue
             pr = k.get("predicate", {})
             p = case["p"]
             if "numbins_min" in pr and not p.get("k", 0) >= pr["numbins_min"]:
+                continue
+            if "numbins" in pr and p.get("k") != pr["numbins"]:
                 continue
             if "formats" in pr and fmt not in pr["formats"]:
                 continue
@@ -231,8 +256,10 @@ class Check:
     def finish(self, extra_coverage=None, explanation=None):
         aud = audit_mod.audit(self.pid)
         broken = [t for t in aud["theorems"] if not t["ok"]]
-        os.makedirs(os.path.join(VERIF, "replays"), exist_ok=True)
-        os.makedirs(os.path.join(VERIF, "evidence"), exist_ok=True)
+        # VERIF_OUT_DIR redirects evidence and replays (used only when the checks are pointed at a scratch tree with a seeded change)
+        outdir = os.environ.get("VERIF_OUT_DIR") or VERIF
+        os.makedirs(os.path.join(outdir, "replays"), exist_ok=True)
+        os.makedirs(os.path.join(outdir, "evidence"), exist_ok=True)
         violations = []
 
         for k in self.known_hits.values():
@@ -244,7 +271,7 @@ class Check:
             obj_ = dict(obj_, property=self.pid, seed=self.seed, tier=self.tier,
                         replay_cmd=f"/venv/bin/python harness/run_check.py {self.pid} --replay <this file>")
             path = os.path.join("replays", f"{self.pid}-{sha(obj_)}.json")
-            with open(os.path.join(VERIF, path), "w") as f:
+            with open(os.path.join(outdir, path), "w") as f:
                 json.dump(obj_, f, indent=1, default=str)
             return path
 
@@ -296,7 +323,7 @@ class Check:
         ev = {"property_id": self.pid, "tier": "thorough" if self.tier == "thorough" else "quick", "seed": self.seed,
               "level": self.level, "coverage": cov, "assumptions": TRUSTED_BASE + self.assumptions,
               "wall_s": round(time.time() - self.t0, 2), "violations": len(violations)}
-        with open(os.path.join(VERIF, "evidence", f"{self.pid}.json"), "w") as f:
+        with open(os.path.join(outdir, "evidence", f"{self.pid}.json"), "w") as f:
             json.dump(ev, f, indent=1, default=str)
         for d in self.disagreements[:5]:
             print(f"  disagreement [{d['stream']}] {d['request']} fmt={d['fmt']} out={d['outtype']}: impl={json.dumps(d['impl'], default=str)[:300]} "
